@@ -14,7 +14,7 @@ import sqlalchemy as sqa
 import pydiverse.transform as pdt
 from pydiverse.transform import extended as X
 
-from .kernel import BOOL, DATE, DT, INT, REAL, STR
+from .kernel import BOOL, DATE, DT, DT_MS, DT_NS, INT, REAL, STR
 
 warnings.filterwarnings("ignore")
 
@@ -119,9 +119,9 @@ class RealAPI:
 SYMBOLIC_BUILD = [False]
 COLLECTED = []
 
-PL_TY = {INT: pl.Int64, BOOL: pl.Boolean, STR: pl.String, REAL: pl.Float64, DATE: pl.Date, DT: pl.Datetime("us")}
-SQA_TY = {INT: sqa.BigInteger, BOOL: sqa.Boolean, STR: sqa.String, REAL: sqa.Double, DATE: sqa.Date, DT: sqa.DateTime}
-DUMMY = {INT: 0, BOOL: False, STR: "", REAL: 0.0, DATE: _dt.date(2000, 1, 1), DT: _dt.datetime(2000, 1, 1)}
+PL_TY = {INT: pl.Int64, BOOL: pl.Boolean, STR: pl.String, REAL: pl.Float64, DATE: pl.Date, DT: pl.Datetime("us"), DT_MS: pl.Datetime("ms"), DT_NS: pl.Datetime("ns")}
+SQA_TY = {INT: sqa.BigInteger, BOOL: sqa.Boolean, STR: sqa.String, REAL: sqa.Double, DATE: sqa.Date, DT: sqa.DateTime, DT_MS: sqa.DateTime, DT_NS: sqa.DateTime}
+DUMMY = {INT: 0, BOOL: False, STR: "", REAL: 0.0, DATE: _dt.date(2000, 1, 1), DT: _dt.datetime(2000, 1, 1), DT_MS: _dt.datetime(2000, 1, 1), DT_NS: _dt.datetime(2000, 1, 1)}
 
 
 def dummy_frame(schema, k):
@@ -136,7 +136,7 @@ def _pyval(v, ty):
     # replay files store temporal values as ISO text
     if isinstance(v, str) and ty == DATE:
         return _dt.date.fromisoformat(v)
-    if isinstance(v, str) and ty == DT:
+    if isinstance(v, str) and ty in (DT, DT_MS, DT_NS):
         return _dt.datetime.fromisoformat(v)
     return v
 
